@@ -246,7 +246,7 @@ func verifH_C20_refgraphs() {
 	verifReach("end")
 }
 
-//verif:harness id=C20 tier=quick,thorough witness=end,loaded steps=20000000 bounds="references at every schema keyword position (not, allOf, oneOf, anyOf, items, properties, additionalProperties) x load entry point in {LoadFromData, LoadFromDataWithPath, LoadFromURI} x 24 targets (incl. six fragments into members the target does not have): self reference through the position, pure-reference cycle, dangling, and fragments that drill into arrays and maps at, beyond and below their bounds (allOf/0, /1 = length, /2, /-1, /x, required/0, enum/1, empty token, '#/', '#', a scalar's child) x external references allowed or not; load, validate, serialise, internalise, serialise: no panic"
+//verif:harness id=C20 tier=quick,thorough witness=end,loaded steps=20000000 bounds="references at every schema keyword position (not, allOf, oneOf, anyOf, items, properties, additionalProperties) x load entry point in {LoadFromData, LoadFromDataWithPath, LoadFromURI} x 31 targets (incl. six fragments into members the target does not have and seven that continue past such a member): self reference through the position, pure-reference cycle, dangling, and fragments that drill into arrays and maps at, beyond and below their bounds (allOf/0, /1 = length, /2, /-1, /x, required/0, enum/1, empty token, '#/', '#', a scalar's child) x external references allowed or not; load, validate, serialise, internalise, serialise: no panic"
 func verifH_C20_schema_refs() {
 	verifEntryPoint = verifChoose("entry", 3) // LoadFromData / LoadFromDataWithPath / LoadFromURI
 	pos := verifChoose("position", 7)
@@ -276,6 +276,14 @@ func verifH_C20_schema_refs() {
 		"#/components/parameters/P/example",
 		"#/paths/~1p/get/requestBody",
 		"#/paths/~1p/get/responses/200/headers/X",
+		// ... and pointers that continue past the absent member
+		"#/components/schemas/L/items/additionalProperties",
+		"#/components/schemas/L/not/additionalProperties/x",
+		"#/components/schemas/L/properties/q/not/items",
+		"#/paths/~1p/put/responses/200",
+		"#/paths/~1p/put/callbacks/cb/x",
+		"#/paths/~1p/put/requestBody/content",
+		"#/paths/~1zz/get",
 	}
 	r := `{"$ref":"` + targets[verifChoose("target", len(targets))] + `"}`
 	var s string
@@ -295,18 +303,18 @@ func verifH_C20_schema_refs() {
 	case 6:
 		s = `{"type":"object","additionalProperties":` + r + `}`
 	}
-	text := `{"openapi":"3.0.0","info":{"title":"t","version":"1"},"paths":{"/p":{"get":{"operationId":"g","parameters":[{"$ref":"#/components/parameters/P"}],"responses":{"200":{"description":"d","content":{"application/json":{"schema":{"$ref":"#/components/schemas/S"}}}}}}}},` +
+	text := `{"openapi":"3.0.0","info":{"title":"t","version":"1"},"paths":{"/p":{"put":{"operationId":"u"},"get":{"operationId":"g","parameters":[{"$ref":"#/components/parameters/P"}],"responses":{"200":{"description":"d","content":{"application/json":{"schema":{"$ref":"#/components/schemas/S"}}}}}}}},` +
 		`"components":{"parameters":{"P":{"name":"q","in":"query","schema":{"type":"integer"}}},"schemas":{"S":` + s + `,"Y1":{"$ref":"#/components/schemas/Y2"},"Y2":{"$ref":"#/components/schemas/Y1"},` +
 		`"L":{"type":"object","allOf":[{"type":"object"}],"required":["q"],"enum":[{"q":[1]}],"properties":{"q":{"type":"array","items":{"type":"integer"}}}}}}}`
 	verifExercise([]byte(text), verifChoose("allowExternal", 2) == 1)
 	verifReach("end")
 }
 
-//verif:harness id=C20 tier=quick,thorough witness=end,loaded steps=20000000 depth=3000 bounds="structurally recursive documents: an untyped schema that contains itself (through properties / items / additionalProperties / allOf / not) with a default, an example or an enum; a callback whose operation uses the same callback again; a path item / operation reached through nested callbacks two levels deep; an inline callback whose path item is a reference back to its own path (directly or through a second path); load, validate, serialise, internalise, serialise: no panic and no unbounded recursion"
+//verif:harness id=C20 tier=quick,thorough witness=end,loaded steps=20000000 depth=3000 bounds="structurally recursive documents: an untyped schema that contains itself (through properties / items / additionalProperties / allOf / not / a oneOf member's additionalProperties) with a default, an example or an enum; a callback whose operation uses the same callback again; a path item / operation reached through nested callbacks two levels deep; an inline callback whose path item is a reference back to its own path (directly or through a second path); load, validate, serialise, internalise, serialise: no panic and no unbounded recursion"
 func verifH_C20_recursive() {
 	verifEntryPoint = 0
 	var comps string
-	shape := verifChoose("shape", 10)
+	shape := verifChoose("shape", 13)
 	// known findings, identified by the input: unbounded recursion through a self-containing
 	// untyped schema with a value to check, and through a callback that uses itself
 	switch shape {
@@ -322,6 +330,12 @@ func verifH_C20_recursive() {
 		comps = `"schemas":{"Z":{"not":{"$ref":"#/components/schemas/Z"},"default":1}}`
 	case 5:
 		comps = `"schemas":{"Z":{"type":"object","properties":{"x":{"$ref":"#/components/schemas/Z"}},"default":{"x":{"x":{}}}}}`
+	case 10:
+		comps = `"schemas":{"Z":{"additionalProperties":{"$ref":"#/components/schemas/Z"},"default":{"a":{}}}}`
+	case 11:
+		comps = `"schemas":{"Z":{"additionalProperties":{"$ref":"#/components/schemas/Z"},"example":{}}}`
+	case 12:
+		comps = `"schemas":{"Z":{"oneOf":[{"type":"string"},{"additionalProperties":{"$ref":"#/components/schemas/Z"}}],"example":{"a":"s"}}}`
 	case 6:
 		comps = `"callbacks":{"CB":{"{$request.body#/u}":{"post":{"responses":{"200":{"description":"d"}},"callbacks":{"again":{"$ref":"#/components/callbacks/CB"}}}}}}`
 	case 7:
@@ -338,7 +352,7 @@ func verifH_C20_recursive() {
 	if shape == 3 || shape == 4 {
 		// through composition keywords alone (the cycles through properties / items / additionalProperties are repaired)
 		kv = "C20-recursive-schema-unbounded-recursion" // during Validate only
-	} else if shape <= 5 {
+	} else if shape <= 5 || shape >= 10 {
 	} else {
 		ki = "C20-internalize-recursive-callback" // during InternalizeRefs only
 	}
